@@ -66,9 +66,12 @@ Definition fixup (tree keep : bool) (rem nnew : Z) (e : entry) : entry :=
 (* One "if (outcome & b){ removed = reb_simulation_remove_particle(r, k, keep_sorted); if (removed){...} }" block:
    returns the new array, the updated index of the other particle of the current collision (only the first
    block updates c.p2; the code leaves it alone when a tree exists) and the rewriting of the later entries. *)
-Definition remove_stage (tree keep : bool) (fx : entry -> entry) (nact : Z) (ps : list P) (k other : Z)
+(* hyb = (r->integrator == REB_INTEGRATOR_MERCURIUS || r->integrator == REB_INTEGRATOR_TRACE).
+   [keep] is the loop's local variable collision_resolve_keep_sorted: it selects the renumbering rule of the pending entries and
+   is passed to reb_simulation_remove_particle, which on its own forces keep_sorted = 1 for the hybrid integrators. *)
+Definition remove_stage (tree hyb keep : bool) (fx : entry -> entry) (nact : Z) (ps : list P) (k other : Z)
   : list P * Z * Z * (entry -> entry) :=
-  let '(psx, nactx, removed) := remove_particle tree keep nact ps k in
+  let '(psx, nactx, removed) := remove_particle tree (keep || hyb) nact ps k in
   if removed then
     (psx, nactx, (if tree then other else remap keep k (zlen psx) other), fun e => fixup tree keep k (zlen psx) (fx e))
   else (psx, nactx, other, fx).
@@ -77,7 +80,7 @@ Definition remove_stage (tree keep : bool) (fx : entry -> entry) (nact : Z) (ps 
    after each removal; here the rewriting function [fx] is accumulated and applied when an entry is
    read (same values: entry j has been rewritten by exactly the removals that happened before it is
    read, in the same order).  [pend] is the array in processing order (after the shuffle). *)
-Fixpoint resolve_loop (tree keep : bool) (fx : entry -> entry) (nact : Z) (s : St) (ps : list P) (pend : list entry)
+Fixpoint resolve_loop_k (tree hyb keep : bool) (fx : entry -> entry) (nact : Z) (s : St) (ps : list P) (pend : list entry)
   : St * list P * Z * list event :=
   match pend with
   | [] => (s, ps, nact, [])
@@ -87,13 +90,17 @@ Fixpoint resolve_loop (tree keep : bool) (fx : entry -> entry) (nact : Z) (s : S
       let '(s1, psr, o) := res s ps (p1, p2, gb) in
       let ev := (p1, p2, gb, idat ps p1, idat ps p2, o) in
       (* if (outcome & 1): remove p1, update c.p2 *)
-      let '(ps1, na1, p2a, fx1) := if Z.testbit o 0 then remove_stage tree keep fx nact psr p1 p2 else (psr, nact, p2, fx) in
+      let '(ps1, na1, p2a, fx1) := if Z.testbit o 0 then remove_stage tree hyb keep fx nact psr p1 p2 else (psr, nact, p2, fx) in
       (* if (outcome & 2): remove (the updated) p2 *)
-      let '(ps2, na2, _, fx2) := if Z.testbit o 1 then remove_stage tree keep fx1 na1 ps1 p2a p1 else (ps1, na1, p1, fx1) in
-      let '(s', psf, naf, log) := resolve_loop tree keep fx2 na2 s1 ps2 rest in
+      let '(ps2, na2, _, fx2) := if Z.testbit o 1 then remove_stage tree hyb keep fx1 na1 ps1 p2a p1 else (ps1, na1, p1, fx1) in
+      let '(s', psf, naf, log) := resolve_loop_k tree hyb keep fx2 na2 s1 ps2 rest in
       (s', psf, naf, ev :: log)
-    else resolve_loop tree keep fx nact s ps rest
+    else resolve_loop_k tree hyb keep fx nact s ps rest
   end.
+
+(* unsigned int collision_resolve_keep_sorted = r->collision_resolve_keep_sorted;
+   if (MERCURIUS || TRACE){ collision_resolve_keep_sorted = 1; }   — [keepuser] is the user's setting *)
+Definition resolve_loop (tree hyb keepuser : bool) := resolve_loop_k tree hyb (keepuser || hyb).
 End Loop.
 
 (* ------------------------------------------------------------------------------------------
@@ -235,13 +242,15 @@ Definition merge (t cb : T) (ps : list (particle T)) (p1 p2 : Z) : list (particl
       let swap := (p2 <? p1)%Z in
       let i := if swap then p2 else p1 in
       let '(pi, pj) := if swap then (b, a) else (a, b) in
-      let invmass := 1 / (pm pi + pm pj) in
-      let vx := (pvx pi * pm pi + pvx pj * pm pj) * invmass in
-      let vy := (pvy pi * pm pi + pvy pj * pm pj) * invmass in
-      let vz := (pvz pi * pm pi + pvz pj * pm pj) * invmass in
-      let x := (px pi * pm pi + px pj * pm pj) * invmass in
-      let y := (py pi * pm pi + py pj * pm pj) * invmass in
-      let z := (pz pi * pm pi + pz pj * pm pj) * invmass in
+      (* double wi = pi->m, wj = pj->m; if (wi + wj == 0.){ wi = 1.; wj = 1.; }  (two massless particles: midpoint) *)
+      let '(wi, wj) := if neqb N (pm pi + pm pj) 0 then (1, 1) else (pm pi, pm pj) in
+      let invmass := 1 / (wi + wj) in
+      let vx := (pvx pi * wi + pvx pj * wj) * invmass in
+      let vy := (pvy pi * wi + pvy pj * wj) * invmass in
+      let vz := (pvz pi * wi + pvz pj * wj) * invmass in
+      let x := (px pi * wi + px pj * wj) * invmass in
+      let y := (py pi * wi + py pj * wj) * invmass in
+      let z := (pz pi * wi + pz pj * wj) * invmass in
       let m := pm pi + pm pj in
       (upd ps (Z.to_nat i) (setp pi x y z vx vy vz m cb t), if swap then 1%Z else 2%Z)
   | _, _ => (ps, 0%Z)
@@ -283,8 +292,10 @@ Definition hardsphere (t eps mcv st ct sp cp : T) (g : vec6 T) (p1 p2 : particle
   let dvy2n := sp * dvx2 in
   let dvy2nn := ct * dvy2n in
   let dvz2nn := st * dvy2n in
-  let p2pf := pm p1 / (pm p1 + pm p2) in
-  let p1pf := pm p2 / (pm p1 + pm p2) in
+  (* msum = p1.m+p2.m; p2pf = (msum!=0.) ? p1.m/msum : 0.5; p1pf = (msum!=0.) ? p2.m/msum : 0.5; *)
+  let msum := pm p1 + pm p2 in
+  let p2pf := if negb (neqb N msum 0) then pm p1 / msum else 1 / nofZ N 2 in
+  let p1pf := if negb (neqb N msum 0) then pm p2 / msum else 1 / nofZ N 2 in
   Some (setp p1 (px p1) (py p1) (pz p1) (pvx p1 + p1pf*dvx2n) (pvy p1 + p1pf*dvy2nn) (pvz p1 + p1pf*dvz2nn)
              (pm p1) (pr p1) t,
         setp p2 (px p2) (py p2) (pz p2) (pvx p2 - p2pf*dvx2n) (pvy p2 - p2pf*dvy2nn) (pvz p2 - p2pf*dvz2nn)
